@@ -1426,3 +1426,6 @@ def required_labels(tier):
 
 
 KNOWN_PREDICATES = {}
+
+
+RULE = RULE + " " + ("The getter table includes zero-padded and prefixed numbers ('007', '-08', '0x10', '+3', '1_0').")
